@@ -82,7 +82,9 @@ def gen_scenario(rng):
             path.append((S, mark))
         instrs.append({"name": f"ETH-X{i}-{strike}-{'C' if kind == 'CALL' else 'P'}", "kind": kind, "strike": strike, "expiry": expiry,
                        "exp_cls": exp_cls, "gone": gone, "path": path})
-    missing = set(h for h in range(1, n_hours) if rng.random() < 0.15)
+    missing = set(h for h in range(0, n_hours) if rng.random() < 0.15)
+    if len(missing) == n_hours:
+        missing.discard(n_hours - 1)
     hours = []
     for h in range(n_hours):
         rows = []
@@ -344,7 +346,15 @@ def compare(ctx, sc, rec, balances, ans, rep):
 
 def run_one(ctx, sc, reqs):
     rep = {"scenario": sc}
-    a, dm, rec, balances, prices, mkey = run_real(sc)
+    try:
+        a, dm, rec, balances, prices, mkey = run_real(sc)
+    except Exception as e:  # noqa: BLE001 — a backtest that stops settles nothing
+        first_missing = not hour_present(sc, 0)
+        ctx.case(f"run-crash:{sc['interval']}:{type(e).__name__}")
+        ctx.violate(f"run-crash.{type(e).__name__}.{'first-hour-missing' if first_missing else 'other'}",
+                    f"Actuator.run stopped with {type(e).__name__}: {str(e)[:120]} (option data hours: "
+                    f"{[m for m, rows in sc['hours'] if rows]}, first bar minute 0)", rep)
+        return
     oracle(ctx, sc, rec, balances, prices, rep)
     reqs.append((model_request(sc, rec, prices, dm), sc, rec, balances, rep))
 
@@ -375,9 +385,18 @@ def directed():
     return out
 
 
+def first_hour_missing():
+    """the option frame has no rows for the hour of the first bar (files of that hour not collected)"""
+    sc = directed()[0]
+    sc = copy.deepcopy(sc)
+    sc["hours"][0] = (0, [])
+    sc["script"] = {}
+    return sc
+
+
 def run(ctx: Ctx):
     reqs = []
-    scs = directed() if not ctx.search else []
+    scs = (directed() + [first_hour_missing()]) if not ctx.search else []
     n = ctx.scale(26, 800)
     for _ in range(n):
         scs.append(gen_scenario(ctx.rng))
